@@ -102,7 +102,11 @@ pub fn compress_args(c: &CompressCase) -> Vec<String> {
         algo => {
             a.push("--hash-chunking".into());
             a.push(if algo == 'B' { "BuzHash".into() } else { "RollSum".into() });
-            a.push("--avg-chunk-size".into()); a.push(size_arg(1usize << (c.cfg.bits + 1)));
+            // (the target size is rounded DOWN to a power of two: two cases in three give a size that is not one)
+            let base = 1usize << (c.cfg.bits + 1);
+            let extra = (c.src.len() * 7919 + c.hashlen * 31 + c.cfg.min) % base;
+            let avg = if c.src.len() % 3 == 0 || base + extra > c.cfg.max { base } else { base + extra };
+            a.push("--avg-chunk-size".into()); a.push(size_arg(avg));
             a.push("--min-chunk-size".into()); a.push(size_arg(c.cfg.min));
             a.push("--max-chunk-size".into()); a.push(size_arg(c.cfg.max));
             a.push("--rolling-window-size".into()); a.push(size_arg(c.cfg.win));
@@ -376,6 +380,34 @@ pub fn suite_clirt(dir: &str, seed: u64, thorough: bool, st: &mut Stats) {
             if !extra.is_empty() { st.violation("C16", &format!("compress with a stale temp file present leaves {:?} besides the archive", extra), &replay); }
             let _ = std::fs::remove_file(s.p("again.cba"));
         }
+        // C16: output names with several dots, no dot, or a leading dot, next to files whose names resemble a temp file's:
+        // the archive is the only new file and every file that was there keeps its content
+        if i % 4 == 1 {
+            let name = *rng.pick(&["rel.1.2.cba", "image.tar.gz.cba", "noext", ".hidden.cba", "a.b"]);
+            let stem = std::path::Path::new(name).file_stem().unwrap().to_string_lossy().to_string();
+            let first = name.trim_start_matches('.').split('.').next().unwrap().to_string();
+            let mut bystanders: Vec<String> = vec![format!("{}..tmp", first), format!("{}.tmp", first), format!("{}.tmp", stem)];
+            if let Some(p) = stem.rfind('.') { if p > 0 { bystanders.push(format!("{}..tmp", &stem[..p])); } }
+            bystanders.retain(|b| *b != format!("{}..tmp", stem));   // (the command's own temp name is not a bystander)
+            bystanders.sort(); bystanders.dedup();
+            for (k, b) in bystanders.iter().enumerate() { s.write(b, format!("bystander {}", k).as_bytes()); }
+            let before = s.listing();
+            let mut args5: Vec<String> = vec!["compress".into(), "-i".into(), "src.bin".into()];
+            args5.extend(compress_args(&c));
+            args5.push(name.into());
+            let argv5: Vec<&str> = args5.iter().map(|x| x.as_str()).collect();
+            let (code5, _) = s.bita(&argv5, None, &[]);
+            st.count("clirt/odd-output-names");
+            let after = s.listing();
+            let mut expect = before.clone(); expect.push(name.to_string()); expect.sort();
+            if code5 != 0 || s.read(name).unwrap_or_default() != archive { st.violation("C12", &format!("compress to `{}` gives another archive than to out.cba (or fails)", name), &replay); }
+            if after != expect { st.violation("C16", &format!("compress to `{}`: directory went from {:?} to {:?}", name, before, after), &replay); }
+            for (k, b) in bystanders.iter().enumerate() {
+                if s.read(b).unwrap_or_default() != format!("bystander {}", k).as_bytes() { st.violation("C16", &format!("compress to `{}` changed or removed the unrelated file `{}`", name, b), &replay); }
+                let _ = std::fs::remove_file(s.p(b));
+            }
+            let _ = std::fs::remove_file(s.p(name));
+        }
         // C12: second run, input through a pipe, other buffering
         let mut args2: Vec<String> = match i % 3 { 0 => vec!["-v".into(), "compress".into()], 1 => vec!["compress".into(), "-vv".into()], _ => vec!["compress".into()] };
         args2.extend(compress_args(&c));
@@ -637,7 +669,7 @@ pub fn suite_clirefuse(dir: &str, seed: u64, _thorough: bool, st: &mut Stats) {
     for cmd in ["clone", "compress"] {
         for outkind in ["absent", "regular", "regular-empty", "regular-long", "blockdev-small", "blockdev-mid", "blockdev-big"] {
             for flag in ["none", "force", "seed-output", "verify", "verify-force", "seed-self"] {
-                for ak in ["valid", "invalid", "mismatch", "prefix-pin", "prefix-pin-63", "empty-pin", "match-pin"] {
+                for ak in ["valid", "invalid", "hc-flip2", "hc-swap", "mismatch", "prefix-pin", "prefix-pin-63", "empty-pin", "match-pin"] {
                     if cmd == "compress" && (flag == "seed-output" || flag == "seed-self" || flag.starts_with("verify") || ak != "valid" || outkind.starts_with("blockdev") || outkind == "regular-long") { continue; }
                     if flag.starts_with("verify") && outkind == "blockdev-big" { continue; } // whole-device checksum: see DESIGN
                     cases.push((cmd.into(), outkind.into(), flag.into(), ak.into()));
@@ -668,6 +700,15 @@ pub fn suite_clirefuse(dir: &str, seed: u64, _thorough: bool, st: &mut Stats) {
         if cmd == "clone" {
             match ak.as_str() {
                 "invalid" => s.write("a.cba", b"this is not an archive at all, not even close........................"),
+                // the stored header checksum altered so that the differences cancel under any byte-wise sum or xor: the same
+                // bit flipped in two of its bytes / two different bytes exchanged
+                "hc-flip2" | "hc-swap" => {
+                    let mut a = archive.clone();
+                    let hp = 14 + u64::from_le_bytes(a[6..14].try_into().unwrap()) as usize + 8;
+                    if ak == "hc-flip2" { a[hp + 3] ^= 0x10; a[hp + 41] ^= 0x10; }
+                    else { let j = (1..64).find(|j| a[hp + j] != a[hp]).unwrap_or(1); a.swap(hp, hp + j); }
+                    s.write("a.cba", &a)
+                }
                 _ => s.write("a.cba", archive),
             }
             match ak.as_str() {
@@ -697,7 +738,7 @@ pub fn suite_clirefuse(dir: &str, seed: u64, _thorough: bool, st: &mut Stats) {
         // expectation (C14): which cells are refusals
         let exists = outkind != "absent";
         let refuse_exists = exists && (flag == "none" || flag == "verify" || flag == "seed-self");
-        let refuse_archive = cmd == "clone" && (ak == "invalid" || ak == "mismatch" || ak.starts_with("prefix-pin") || ak == "empty-pin");
+        let refuse_archive = cmd == "clone" && (ak == "invalid" || ak.starts_with("hc-") || ak == "mismatch" || ak.starts_with("prefix-pin") || ak == "empty-pin");
         let refuse_small = cmd == "clone" && (outkind == "blockdev-small" || outkind == "blockdev-mid") && flag != "none" && flag != "verify" && flag != "seed-self" && !refuse_archive;
         let refused = refuse_exists || refuse_archive || refuse_small;
         let state = match (&now, exists) {
